@@ -16,6 +16,7 @@ DEFAULT_PROFILE = {
     'p_opts': 200,           # a phase has non-default options
     'p_meas': 300,
     'p_diag': 250,
+    'p_internal_diag': 300,  # share of eligible (non-failure) phase diagnosers that issue internal diagnoses
     'p_plug': 0,
     'p_timeout': 0,          # phase with timeout and long / hanging body
     'p_ambiguous_dur': 0,    # durations inside [deadline, deadline+3) allowed
@@ -33,6 +34,7 @@ DEFAULT_PROFILE = {
     'plug_faults': 0,
     'watchers': 0,
     'late': 0,
+    'p_profile': 0,
 }
 
 
@@ -165,8 +167,13 @@ class Gen(object):
               res.append([r, 1 if t.chance(300, 'isfail') else 0])
               self.used_results.append(r)
             outs.append(res)
-        diags.append({'name': 'd%d_%d' % (k, j), 'outs': outs,
-                      'always_fail': t.chance(100, 'af')})
+        d = {'name': 'd%d_%d' % (k, j), 'outs': outs, 'always_fail': t.chance(100, 'af')}
+        # internal diagnoses (kept out of the record, but they do reach the diagnoses store that
+        # branches, diagnosis checkpoints and conditional validators look at); never failures
+        if (not d['always_fail'] and all(o == 'raise' or all(not f for (_, f) in o) for o in outs)
+            and self.chance('p_internal_diag')):
+          d['internal'] = True
+        diags.append(d)
     plugs = {}
     if self.chance('p_plug'):
       for j in range(1 + t.draw(2, 'nplug')):
@@ -327,6 +334,8 @@ class Gen(object):
     for _ in range(ncb):
       cbs.append('raise' if self.chance('p_callbacks_raise') else 'ok')
     spec['callbacks'] = cbs
+    # Test.execute(profile_filename=...): every phase thread runs under cProfile
+    spec['profile'] = bool(p.get('p_profile')) and t.chance(p['p_profile'], 'profile')
     spec['watchers'] = t.draw(3, 'nwatch') if p.get('watchers') and t.chance(p['watchers'], 'watch') else 0
     # abort
     spec['abort'] = None
